@@ -258,6 +258,8 @@ func (w *world) qualPhase(r *ev.Run, masksPer, stride int) {
 								o.count("qual_pattern_no_match_decided:" + hk)
 								o.count("qual_pattern_no_match_decided:" + dn)
 								o.setAdd("qual_pattern_decided_relations", hk+":"+rel)
+								o.samples = append(o.samples, sample{"qual-decided:" + hk + ":" + rel, map[string]interface{}{"dialect": dn, "handler": hk, "pattern": p.Text,
+									"statement": m.Canon, "pattern_made_from": src.Canon, "relation": rel, "expected": "the pattern does not match the statement"}})
 							case t == Undecided && strings.HasPrefix(rel, "qual"):
 								o.count("qual_pattern_not_decided:" + rel)
 							}
